@@ -1,2 +1,3 @@
 import Bec2Verif.Props.C15
 import Bec2Verif.Props.C01
+import Bec2Verif.Props.C08
